@@ -345,8 +345,9 @@ def repo_ident():
 
 
 def write_replay(check, plan, sig, detail, original_index, seed):
-    os.makedirs(os.path.join(VERIF, "replays"), exist_ok=True)
-    path = os.path.join(VERIF, "replays", f"{check.ID}-{seed}-{original_index}.json")
+    rdir = os.environ.get("VERIF_REPLAY_DIR") or os.path.join(VERIF, "replays")
+    os.makedirs(rdir, exist_ok=True)
+    path = os.path.join(rdir, f"{check.ID}-{seed}-{original_index}.json")
     trace = None
     tr = getattr(check, "trace", None)
     if tr is not None:
